@@ -46,11 +46,16 @@ namespace ST
         {
             m_chars = is_heap() ? move.m_chars : m_stack;
             std::char_traits<char>::copy(m_stack, move.m_stack, ST_STACK_STRING_SIZE);
-            move.m_alloc = 0;
+            move.m_chars = move.m_stack;
+            move.m_alloc = ST_STACK_STRING_SIZE;
+            move.m_size = 0;
         }
 
         string_stream &operator=(string_stream &&move) noexcept
         {
+            if (this == &move)
+                return *this;
+
             if (is_heap())
                 delete[] m_chars;
 
@@ -58,7 +63,9 @@ namespace ST
             m_size = move.m_size;
             m_chars = is_heap() ? move.m_chars : m_stack;
             std::char_traits<char>::copy(m_stack, move.m_stack, ST_STACK_STRING_SIZE);
-            move.m_alloc = 0;
+            move.m_chars = move.m_stack;
+            move.m_alloc = ST_STACK_STRING_SIZE;
+            move.m_size = 0;
             return *this;
         }
 
